@@ -2,6 +2,7 @@
 Hypothesis strategies for specifications and run-time inputs (DESIGN.md 3.1).
 All random choices are Hypothesis draws, so cases shrink and replay.
 """
+import copy
 import itertools
 
 from hypothesis import strategies as st
@@ -421,7 +422,7 @@ def _ie(*terms):
 
 
 @st.composite
-def case_affine(draw, max_extent=6, coeffs=(1, 1, 2, 2, 3, 4), allow_partition=True):
+def case_affine(draw, max_extent=6, coeffs=(1, 1, 2, 2, 3, 4), allow_partition=True, allow_reverse=False):
     """
     templates: conv1d (stride/dilation), conv2d, three-variable sum, subsampling, renaming;
     optional extra plain ranks (batch N in I and O, channel M in F and O, reduction C in I and F).
@@ -462,6 +463,10 @@ def case_affine(draw, max_extent=6, coeffs=(1, 1, 2, 2, 3, 4), allow_partition=T
             f_idx.append(_ie((1, "c"))); f_decl.append("C")
         decl = [["F", f_decl], ["I", i_decl], ["O", o_decl]]
         facs = [{"t": "I", "idx": i_idx}, {"t": "F", "idx": f_idx}]
+        if draw(st.integers(0, 1 if allow_reverse else 3)) == 0:
+            # a second tensor accessed with the same affine index (two projected inputs at one loop)
+            decl.insert(1, ["G", list(i_decl)])
+            facs.insert(draw(st.integers(0, 1)), {"t": "G", "idx": copy.deepcopy(i_idx)})
         if draw(st.booleans()):
             facs.reverse()
         expr = {"out": ["O", o_idx], "terms": [{"take": None, "factors": facs}]}
@@ -526,14 +531,26 @@ def case_affine(draw, max_extent=6, coeffs=(1, 1, 2, 2, 3, 4), allow_partition=T
     spec["rank_order"] = draw(rank_orders(decl))
     # ---- partitioning of the output index rank with the input rank following
     part_levels = 0
-    if allow_partition and draw(st.integers(0, 2)) == 0:
+    reverse = False
+    if allow_partition and draw(st.integers(0, 2)) <= (1 if allow_reverse else 0):
         part_levels = draw(st.sampled_from([1, 1, 2]))
         dirs = []
         for i in range(part_levels):
             kind = draw(st.sampled_from(["uniform_shape", "uniform_shape", "nway_shape"]))
             nm = out_affine_rank + str(part_levels - 1 - i)
             dirs.append("%s(%s)" % (kind, draw(size_token(nm, 1, ext[out_affine_rank] + 1, sizes))))
+        if allow_reverse and tmpl in ("conv1d", "sum3") and draw(st.integers(0, 1)) == 0:
+            # static checks only: an occupancy level beneath the shape split (dynamic follower with halo)
+            lead = draw(st.sampled_from([f["t"] for f in facs if f["t"] != "F"]))
+            dirs = [d.replace("nway_shape", "uniform_shape") for d in dirs]
+            dirs.append("uniform_occupancy(%s.%s)" % (lead, draw(size_token("sz_occ", 1, 4, sizes))))
+            part_levels += 1
         parts = [[out_affine_rank, dirs], [follower, ["follow(%s)" % out_affine_rank]]]
+        reverse = allow_reverse and draw(st.integers(0, 2)) == 0
+        if reverse:
+            # the tensor's own rank is partitioned and the output index rank follows it (static checks only:
+            # the step of the follower can be fractional, e.g. 1 / 2 * step, which no execution model supports)
+            parts = [[follower, dirs], [out_affine_rank, ["follow(%s)" % follower]]]
         spec["partitioning"] = {out: parts}
     # ---- loop order: for each equation choose which of its ranks are looped (all but one).
     # Only a non-output variable may be replaced by the tensor's own rank (replacing an output variable would need a
@@ -568,7 +585,8 @@ def case_affine(draw, max_extent=6, coeffs=(1, 1, 2, 2, 3, 4), allow_partition=T
     rt["sizes"].update(sizes)
     case = {"spec": spec, "template": tmpl, "part_levels": part_levels,
             "affine": [[w, [[c, v] for c, v in terms]] for w, terms in affine],
-            "part_rank": out_affine_rank if part_levels else None, "follower": follower if part_levels else None}
+            "part_rank": out_affine_rank if part_levels else None, "follower": follower if part_levels else None,
+            "reverse_follow": reverse}
     case.update(rt)
     return case
 
@@ -735,7 +753,7 @@ def case_shape_any(draw, max_extent=5):
 
 
 @st.composite
-def corpus_case(draw, max_extent=4, spacetime_ratio=2):
+def corpus_case(draw, max_extent=4, spacetime_ratio=2, static_only=True):
     fam = draw(st.sampled_from(["plain", "plain", "shape", "shape", "occ", "flat", "affine", "affine", "cascade"]))
     if fam == "plain":
         c = draw(case_of(spec_plain(), max_extent=max_extent))
@@ -746,7 +764,7 @@ def corpus_case(draw, max_extent=4, spacetime_ratio=2):
     elif fam == "flat":
         c = draw(case_flat(max_extent=max_extent))
     elif fam == "affine":
-        c = draw(case_affine(max_extent=max_extent))
+        c = draw(case_affine(max_extent=max_extent, allow_reverse=static_only))
     else:
         c = draw(case_cascade(max_extent=3))
     c.setdefault("family", fam)
